@@ -42,9 +42,39 @@ pub fn long_len(n: i64) -> usize {
 }
 
 pub fn encode(v: &RV, s: &RS, defs: &Defs, out: &mut Vec<u8>) {
+    encode_t(v, s, defs, out, &mut None)
+}
+
+pub type LeafTrace = Option<Vec<(usize, &'static str)>>;
+
+/// Encoder that optionally records (offset, schema kind) for every position where a node starts.
+pub fn encode_t(v: &RV, s: &RS, defs: &Defs, out: &mut Vec<u8>, tr: &mut LeafTrace) {
+    if let Some(t) = tr {
+        let kind = match s {
+            RS::Ref { .. } => "",
+            RS::Logical(l, _) => l.name(),
+            RS::Null => "null",
+            RS::Boolean => "boolean",
+            RS::Int => "int",
+            RS::Long => "long",
+            RS::Float => "float",
+            RS::Double => "double",
+            RS::Bytes => "bytes",
+            RS::String => "string",
+            RS::Fixed { .. } => "fixed",
+            RS::Enum { .. } => "enum",
+            RS::Record { .. } => "record",
+            RS::Array(_) => "array",
+            RS::Map(_) => "map",
+            RS::Union(_) => "union",
+        };
+        if !kind.is_empty() {
+            t.push((out.len(), kind));
+        }
+    }
     match (s, v) {
-        (RS::Ref { full, .. }, _) => encode(v, &defs[full], defs, out),
-        (RS::Logical(_, base), _) => encode(v, base, defs, out),
+        (RS::Ref { full, .. }, _) => encode_t(v, &defs[full], defs, out, tr),
+        (RS::Logical(_, base), _) => encode_t(v, base, defs, out, &mut None),
         (RS::Null, RV::Null) => {}
         (RS::Boolean, RV::Bool(b)) => out.push(*b as u8),
         (RS::Int, RV::Int(i)) => put_long(out, *i as i64),
@@ -66,14 +96,14 @@ pub fn encode(v: &RV, s: &RS, defs: &Defs, out: &mut Vec<u8>) {
         (RS::Enum { .. }, RV::Enum(i)) => put_long(out, *i as i64),
         (RS::Record { fields, .. }, RV::Record(vs)) => {
             for ((_, t), v) in fields.iter().zip(vs) {
-                encode(v, t, defs, out);
+                encode_t(v, t, defs, out, tr);
             }
         }
         (RS::Array(t), RV::Array(vs)) => {
             if !vs.is_empty() {
                 put_long(out, vs.len() as i64);
                 for v in vs {
-                    encode(v, t, defs, out);
+                    encode_t(v, t, defs, out, tr);
                 }
             }
             out.push(0);
@@ -84,14 +114,14 @@ pub fn encode(v: &RV, s: &RS, defs: &Defs, out: &mut Vec<u8>) {
                 for (k, v) in es {
                     put_long(out, k.len() as i64);
                     out.extend_from_slice(k.as_bytes());
-                    encode(v, t, defs, out);
+                    encode_t(v, t, defs, out, tr);
                 }
             }
             out.push(0);
         }
         (RS::Union(bs), RV::Union(i, inner)) => {
             put_long(out, *i as i64);
-            encode(inner, &bs[*i as usize], defs, out);
+            encode_t(inner, &bs[*i as usize], defs, out, tr);
         }
         (s, v) => panic!("refimpl::encode: {v:?} does not fit {s:?}"),
     }
